@@ -55,6 +55,10 @@ CLAIMED = {
                      'forward o backward = id, derivative_chain factor = d backward/dp (for all values, symbolic). Model validation: on every path of the validator, the five setters, '
                      '_init_parameter and the constructor a stored property implies all(conductivity > 0) and all finite under IEEE semantics; None-properties cannot be assigned. '
                      'Coefficients depend on the property only through backward (C02 VolumeModel obligations re-run here).'),
+    'C15': dict(ref='5 (C15)', tech=TECH, note=NOTE + ' Conservation of the integral, range and identity on equal grids are covered by an exhaustive bounded check on a dyadic lattice (not proved); np.unique contract assumed; pairing with the discretize adjoint not covered.',
+                text='Proof (loop invariants for the two monotone pointers, symbolic node vectors) that every segment emitted by _volume_average_weights has positive length, valid cell indices, its centre in the stated output cell and in the stated (or nearest) input cell; '
+                     'that interp_volume_average adds w_z w_y w_x values[in] to new[out] per triple of segments and divides by the cell volume (hence linear with non-negative weights); that interpolate(method=volume) always runs this kernel (log10 before / 10** after in log mode) '
+                     'and that Model.interpolate_to_grid uses log mode exactly for the linear mappings.'),
 }
 NOT_APPLICABLE = {
     'C06': 'grid-independent convergence rate: empirical/spectral statement about floating-point iteration counts; no per-call contract expresses or decides it',
